@@ -224,3 +224,54 @@ def tput_cases(r, n):
         p = r.choice([0.0, 1e-9, 0.001, 0.01, 0.1, 0.5, 1.0, r.random()])
         ops.append("tput %s %s" % (f64bits(rtt), f64bits(p)))
     return ops
+
+
+def twin_case(r):
+    """C15: the same sender/receiver session run twice in one script: endpoints (0,1) see every ack once,
+    endpoints (2,3) additionally see duplicates and delayed replays of genuine ack frames. The two senders
+    (0 and 2) must stay indistinguishable."""
+    c = pick_cfg(r)
+    c["W"] = r.choice([64, 4096])
+    c["FW"] = 4096
+    l0, l1 = hcnew_lines(c)
+    l2 = l0.replace("hcnew 0 ", "hcnew 2 ", 1)
+    l3 = l1.replace("hcnew 1 ", "hcnew 3 ", 1)
+    ops = ["seed %d" % r.randrange(U32), l0, l1, l2, l3]
+    now = 0
+    k = 0
+    for t in range(r.choice([5, 10, 20])):
+        now += r.choice([1, 10, 50, 200, 1000])
+        sends = []
+        for _ in range(r.choice([0, 1, 1, 3])):
+            sends.append((r.randrange(4), r.randrange(4), pick_len(r, min(c["alloc"][1], 3 * F)), k))
+            k += 1
+        credit = r.choice([100, 1000, 1472, 2944, 100000])
+        loss_seed = r.randrange(2 ** 31)
+        loss = r.choice([0, 0, 300])
+        ack_lost = False   # every ack frame is delivered at least once, so a later `deliver` is a true replay
+        for (a, b) in ((0, 1), (2, 3)):
+            for (ch, m, ln, sd) in sends:
+                ops.append("send %d %d %d %d %d" % (a, ch, m, ln, sd))
+            ops.append("step %d %d" % (a, now))
+            ops.append("credit %d %d" % (a, credit))
+            ops.append("flush %d" % a)
+            ops.append("relay %d %d %d 0 0 %d" % (a, b, loss, loss_seed))
+            ops.append("recv %d" % b)
+            ops.append("step %d %d" % (b, now))
+            ops.append("credit %d 100000" % b)
+            ops.append("flush %d" % b)
+            if not ack_lost:
+                if a == 0:
+                    ops.append("relay %d %d 0 0 0 1" % (b, a))
+                else:
+                    ops.append("relay %d %d 0 0 0 1" % (b, a))
+                    for _ in range(r.choice([0, 1, 3])):
+                        ops.append("replayack %d %d %d" % (b, 10 ** 6 - r.randrange(1, 4), a))   # duplicate of a recent ack
+            elif a == 2:
+                ops.append("relay %d %d 1000 0 0 1" % (b, a))   # keep the relay cursors of both runs aligned
+            else:
+                ops.append("relay %d %d 1000 0 0 1" % (b, a))
+            if a == 2 and r.random() < 0.5:
+                for _ in range(r.choice([1, 2, 5])):
+                    ops.append("replayack 3 %d 2" % r.randrange(1000))   # delayed replay of an earlier ack frame
+    return ops
